@@ -891,3 +891,86 @@ contract(
     props=("C06", "C12", "C13"), domain="skip",
     canaries=[("receiver_and_argument_swapped", "subtract(self.data, other.data)", "subtract(other.data, self.data)")],
 )
+
+
+# ----------------------------------------------------------------------------- deductive: the equal split of merged regions
+# _split_targets: every merged region of at least the minimum size is cut into max(1, round(length / avg)) bins by the
+# formula start + int(d * length / nbins); consequences proved in real arithmetic: bins non-empty, inside their region,
+# abutting, of equal size up to one base.
+
+# merged region q (what merge() hands to the loop), its span, the number of bins it is cut into and the (real) bin size
+_MS, _ME = "iter0_[q].start", "iter0_[q].end"
+_SPAN = "(ME - MS)".replace("ME", _ME).replace("MS", _MS)
+_RND = "round(SPAN / avg_size)".replace("SPAN", _SPAN)
+_NB = "ite(RND == 0, 1, RND)".replace("RND", _RND)
+_BSZ = "(SPAN / NB)".replace("SPAN", _SPAN).replace("NB", _NB)
+
+
+def _sp(text):
+    return (text.replace("BSZ", _BSZ).replace("NB", _NB).replace("SPAN", _SPAN).replace("ME", _ME).replace("MS", _MS))
+
+
+# entry j of the output was yielded for merged region q = src_[j][0]; d = src_[j][1] is the index of the inner loop, or -1
+# for the last (or only) bin of the region.  QI/DI: how far the loops have come.
+_BIN_FORMULA = _sp(
+    "forall(0, len(out_), lambda j: let(lambda q, d: 0 <= q and (q < QI or (q == QI and 0 <= d and d < DI)) and SPAN >= min_size and "
+    "out_[j].chromosome == iter0_[q].chromosome and "
+    "ite(d < 0, out_[j].start == MS + ite(NB == 1, 0, int((NB - 1) * BSZ)) and out_[j].end == ME, "
+    "d < NB - 1 and out_[j].start == MS + int(d * BSZ) and out_[j].end == MS + int((d + 1) * BSZ)), src_[j][0], src_[j][1]))")
+_ALL_EMITTED = _sp(
+    "forall(0, QI, lambda q: implies(SPAN >= min_size, exists(0, len(out_), lambda j: src_[j][0] == q and src_[j][1] < 0) and "
+    "forall(0, NB - 1, lambda d: implies(uf_bool('bin', d), exists(0, len(out_), lambda j: src_[j][0] == q and src_[j][1] == d)))))")
+_CUR_EMITTED = "forall(0, DI, lambda d: implies(uf_bool('bin', d), exists(0, len(out_), lambda j: src_[j][0] == QI and src_[j][1] == d)))"
+# consecutive entries: regions in order; inside a region the bins abut, in order of the inner index, the last one (d = -1) last
+_ABUT = ("forall(0, len(out_), lambda j: implies(j + 1 < len(out_), src_[j][0] <= src_[j + 1][0] and "
+         "implies(src_[j][0] == src_[j + 1][0], out_[j].end == out_[j + 1].start and src_[j][1] >= 0 and "
+         "(src_[j + 1][1] < 0 or src_[j + 1][1] == src_[j][1] + 1)) and "
+         "implies(src_[j][0] < src_[j + 1][0], src_[j][1] < 0 and src_[j + 1][1] <= 0)))")
+
+contract(
+    "skgenome/subdivide.py::_split_targets",
+    params=dict(regions=_IV3, avg_size=Int, min_size=Int, verbose=Lit(False)),
+    yields=RecT("Pandas", chromosome=CHROM, start=Int, end=Int),
+    requires=["avg_size >= 1"],
+    loops={
+        0: dict(inv=[("bins_by_formula", _BIN_FORMULA.replace("QI", "i_").replace("DI", "0")),
+                     ("all_emitted", _ALL_EMITTED.replace("QI", "i_"), ["current_emitted"]),
+                     ("abutting", _ABUT),
+                     ("previous_region_closed", "implies(len(out_) > 0, src_[len(out_) - 1][0] < i_ and src_[len(out_) - 1][1] < 0)")]),
+        1: dict(inv=[("bins_by_formula", _BIN_FORMULA.replace("QI", "i0_").replace("DI", "i_")),
+                     ("all_emitted", _ALL_EMITTED.replace("QI", "i0_"), []),
+                     ("current_emitted", _CUR_EMITTED.replace("QI", "i0_").replace("DI", "i_"), []),
+                     ("abutting", _ABUT),
+                     ("next_start", "bin_start == row.start + int(i_ * bin_size)"),
+                     ("last_is_previous_bin", "implies(i_ > 0, len(out_) > 0 and src_[len(out_) - 1][0] == i0_ and src_[len(out_) - 1][1] == i_ - 1 and "
+                                              "out_[len(out_) - 1].end == bin_start)"),
+                     ("previous_region_closed", "implies(len(out_) > 0 and src_[len(out_) - 1][0] < i0_, src_[len(out_) - 1][1] < 0)"),
+                     ("none_yet", "implies(i_ == 0, forall(0, len(out_), lambda j: src_[j][0] < i0_))")]),
+    },
+    ensures=[
+        ("bins_by_formula", _BIN_FORMULA.replace("out_", "result").replace("QI", "len(iter0_)").replace("DI", "0")),
+        ("all_emitted", _ALL_EMITTED.replace("out_", "result").replace("QI", "len(iter0_)")),
+        ("abutting", _ABUT.replace("out_", "result")),
+        # consequences of the formula (real arithmetic): every bin is non-empty, inside its merged region, and of the
+        # region's length / number of bins up to one base
+        ("at_most_one_bin_per_base", _sp("forall(0, len(iter0_), lambda q: 1 <= NB and NB <= SPAN)"), ["sorted_separated", "-path"]),
+        ("bin_size_at_least_one", _sp("forall(0, len(iter0_), lambda q: BSZ >= 1 and NB * BSZ == SPAN)"), ["at_most_one_bin_per_base", "-path"]),
+        ("bins_nonempty_inside_their_region", _sp("forall(0, len(result), lambda j: let(lambda q: MS <= result[j].start and "
+                                                  "result[j].start < result[j].end and result[j].end <= ME, src_[j][0]))"),
+         ["bins_by_formula", "bin_size_at_least_one", "at_most_one_bin_per_base", "-path"]),
+        ("bin_sizes_equal_up_to_one_base", _sp("forall(0, len(result), lambda j: let(lambda q: BSZ - 1 < result[j].end - result[j].start and "
+                                               "result[j].end - result[j].start < BSZ + 1, src_[j][0]))"),
+         ["bins_by_formula", "sorted_separated", "-path"]),
+    ],
+    ghost=dict(chain_ensures=True, nonlinear_clauses=("at_most_one_bin_per_base", "bin_size_at_least_one", "bins_nonempty_inside_their_region", "bin_sizes_equal_up_to_one_base")),
+    props=("C12", "C06"), domain="skip",
+    canaries=[("end_off_by_one", "bin_end = row.start + int(i * bin_size)", "bin_end = row.start + int(i * bin_size) + 1"),
+              ("floor_instead_of_round", "nbins = int(round(span / avg_size)) or 1", "nbins = int(span / avg_size) or 1"),
+              ("strict_minimum", "if span >= min_size:", "if span > min_size:"),
+              ("last_bin_whole_region", "yield row._replace(start=bin_start)", "yield row"),
+              ("one_bin_too_many", "for i in range(1, nbins):", "for i in range(1, nbins + 1):"),
+              ("regions_not_merged", "for row in merge(regions).itertuples(index=False):", "for row in regions.itertuples(index=False):")],
+    notes="the arithmetic core of GenomicArray.subdivide / `target --split`: real arithmetic for span / nbins and int(i * bin_size); "
+          "the table built from these records (pd.DataFrame.from_records) and the cover statement that do_target uses stay "
+          "with the assumed contract of GenomicArray.subdivide and its bounded twin",
+)
